@@ -29,9 +29,9 @@ func init() {
 
 func runC14(c *engine.Ctx) {
 	r1 := c.Rule("R1", "immediate grant only when the peer has nothing waiting", 1)
-	r2 := c.Rule("R2", "every release that reduced a counter reaches the pending-processing loop before returning", 2)
-	r3 := c.Rule("R3", "heap freshness: key stores are followed by Update/Remove/Pop before the next Peek and before a public operation returns", 4)
-	r4 := c.Rule("R4", "one answer per request: buffered channel; exactly one of {answer, enqueue} on allocate; grant-from-pending answers and dequeues the head; FIFO list", 4)
+	r2 := c.Rule("R2", "every release that reduced a counter reaches the pending-processing loop before returning", 1)
+	r3 := c.Rule("R3", "heap freshness: key stores are followed by Update/Remove/Pop before the next Peek and before a public operation returns", 2)
+	r4 := c.Rule("R4", "one answer per request: buffered channel; exactly one of {answer, enqueue} on allocate; grant-from-pending answers and dequeues the head; FIFO list", 2)
 	r5 := c.Rule("R5", "peer release fails every waiting request of that peer with a non-nil error", 1)
 	a := loadAlloc(c, r1)
 	if a == nil {
